@@ -19,7 +19,7 @@ EXPLANATION = (
     "(R7) reg2bin geometry constants (shifts 14..26 step 3, offsets ((1<<k)-1)/7) and UNMAPPED_BIN = 4680."
     " (R8) reused destination: every entry->Ok path of the eager decoder overwrites or clears each of the twelve RecordBuf columns (whole-object store, clear, or a callee that definitely resets its parameter), so a record decoded into a reused buffer carries nothing of the previous one."
     " (R9) record framing on the read path: the block_size prefix loop advances (never overwrites) its cursor and returns Ok only when nothing or everything was read."
-    " (R10) writer scratch buffer: the BAM writers clear their record buffer on every path before the encoder fills it, so the block written is exactly this record.")
+    " (R10) writer scratch buffer: the BAM writers clear their record buffer on every path before the encoder fills it, so the block written is exactly this record. (R11) the overflow-CIGAR placeholder length and l_seq both derive from Sequence::len(). (R12) the lazy base iterator takes the trailing padding nibble from the window's end parity (genuine defect F58, repaired).")
 ASSUMPTIONS = ["interval reasoning is dominance-based, not path-sensitive; what it cannot prove is tabled with a reason",
                "match tables are read from type-checked HIR patterns; values computed by arithmetic are out of reach"]
 NOT_DECIDED = ["whole-record equality over all field values", "aux value range boundaries, 4-bit base packing for odd lengths (unit-test territory)",
@@ -206,6 +206,30 @@ def run(ctx):
                                   "encode() gives overflowing_write_cigar_op_count a length that does not come from Sequence::len() (the value "
                                   "written as l_seq): a record with more than 65535 CIGAR operations and SEQ `*` (or a CIGAR without read "
                                   "bases) is written with a placeholder neither decoder recognises", fe11.loc(b11))
+
+    ctx.rule("C05.R12", "lazy sequence windows: bam::record::sequence::Iter::new decides whether the last byte of a window holds a base past the "
+                        "window from the window's END offset (its parity), never from the length of the whole packed buffer — the halves of "
+                        "Sequence::split_at_checked share the buffer (genuine defect F58, repaired)")
+    f12 = ctx.anchor("C05.R12", "noodles_bam::record::sequence::iter::Iter::<'a>::new")
+    if f12 is not None:
+        ctx.saw_fn(f12)
+        backs = [b for b, c in R.find_calls(f12, r"sequence::iter::discard_back_decoded_bases$")]
+        # closures: the discard happens inside `.map(|&n| ..)`; the guard is the switch that dominates the next_back() call
+        nb = [b for b, c in R.find_calls(f12, r"DoubleEndedIterator>?::next_back$")]
+        if not nb:
+            ctx.violation("C05.R12", "C05.R12/ANCHOR-MISSING/Iter::new/next_back", "Iter::new no longer takes a trailing byte with next_back()", f12.loc())
+        for b12 in nb:
+            guards = [g for g in C.dom_chain(f12, b12) if f12.blocks[g]["t"][0] == "sw" and g != b12]
+            # the nearest dominating test decides; it reads `end` and does not read the buffer
+            near = max(guards, key=lambda g: len(C.dom_chain(f12, g))) if guards else None
+            from_end = near is not None and R.derives_from_local(f12, f12.blocks[near]["t"][1], 3, through_calls=True)
+            from_buf = near is not None and R.derives_from_local(f12, f12.blocks[near]["t"][1], 1, through_calls=True)
+            if from_end and not from_buf:
+                ctx.ok("C05.R12", f12.key, "the trailing byte is split off behind a test of `end`", f12.loc(b12))
+            else:
+                ctx.violation("C05.R12", "C05.R12/padding-from-buffer-length/" + f12.key,
+                              "Iter::new takes the trailing padding nibble behind a test that does not derive from the window's end (or derives "
+                              "from the buffer alone): a window that is not the whole read iterates with its last base missing", f12.loc(b12))
 
     ctx.rule("C05.R6", "A7 dec∘enc = id exhaustively for CIGAR kind / aux type / array subtype tables; sentinels agree")
     a7.table_agreement(ctx, "C05.R6", {"noodles_bam"}, 3)
